@@ -30,6 +30,13 @@ def run(ctx):
     # on a file (a parser work limit reached only *after* the insertions made the file longer loses the whole file)
     from .finder import rule_parse_complete
     rule_parse_complete(ctx, facts, "C06-R1")
+    # the re-check after an edit sees what the edit wrote only if (a) offsets computed by the finder are applied to the very
+    # text they were computed on and (b) a statement's record is built from that statement alone (state kept across
+    # statements puts the wrong separator after a new key-value, and the edited statement no longer parses as written)
+    from .c05 import rule_same_text
+    rule_same_text(ctx, facts, "C06-R3")
+    from .finder import rule_statement_local_state
+    rule_statement_local_state(ctx, facts, "C06-R2")
     # R1 — reuse C12's automata obligations under C06 names
     sub = _Only(ctx, "C06-R1", ("regex-language", "regex-anchor", "regex-groups", "regex-group-span", "token-shape", "token-spelling",
                                 "token-recognised", "token-doc-regex", "token-display", "anchor|", "template-decode", "parse-u32", "group-1", "some-payload"))
